@@ -387,6 +387,14 @@ def run(tier, seed, jobs):
     work.append(("b1", long1 + (("t", MTW - 0.1), ("b1", 1, 2, 1, 0, 16, "a", None, "PUT")), 20, 3))
     work.append(("b2", long2, 64, 3 if tier == "quick" else 4))
     work.append(("b2", long2 + (("t", MTW - 0.1), ("b2", 1, 2, 0)), 64, 3))
+    # the cache runs empty (a block-0 request answered whole drops the entry), is filled again 0.7 lifetimes later, and the new
+    # entry is used 0.6 lifetimes after that: whatever was armed for the old entry has come due in between
+    refill = (("b2", 1, 0, 0), ("b2", 1, 0, 2), ("t", 0.7 * MTW), ("b2", 1, 0, 0), ("t", 0.6 * MTW))
+    work.append(("b2", refill, 64, 2 if tier == "quick" else 3))
+    work.append(("b2", (("b2", 1, 0, 1),) + refill[1:], 64, 2))
+    refill1 = (("b1", 1, 0, 1, 0, 16, "a", None, "PUT"), ("b1", 1, 1, 0, 0, 16, "a", None, "PUT"), ("t", 0.7 * MTW),
+               ("b1", 1, 0, 1, 0, 16, "a", None, "PUT"), ("t", 0.6 * MTW))
+    work.append(("b1", refill1, 20, 2 if tier == "quick" else 3))
     return core.prun(job, work, jobs)
 
 
